@@ -86,9 +86,9 @@ pub fn lib_clone_full(bytes: &[u8], prior: &[u8], inplace: bool, seeds: &[Vec<u8
     let r = std::panic::catch_unwind(move || {
         let rt = tokio::runtime::Builder::new_current_thread().enable_all().build().unwrap();
         rt.block_on(async move {
-            match tokio::time::timeout(Duration::from_secs(10), clone_pipeline_full(IoReader::new(Cursor::new(bytes)), prior, inplace, &seeds)).await {
+            match tokio::time::timeout(watchdog(10), clone_pipeline_full(IoReader::new(Cursor::new(bytes)), prior, inplace, &seeds)).await {
                 Ok(r) => r,
-                Err(_) => Err("TIMEOUT".to_string()),
+                Err(_) => { watchdog_hit(); Err("TIMEOUT".to_string()) }
             }
         })
     });
@@ -187,9 +187,9 @@ pub fn lib_clone(bytes: &[u8], seeds: &[Vec<u8>]) -> Result<Vec<u8>, String> {
     let r = std::panic::catch_unwind(move || {
         let rt = tokio::runtime::Builder::new_current_thread().enable_all().build().unwrap();
         rt.block_on(async move {
-            match tokio::time::timeout(Duration::from_secs(10), clone_pipeline(IoReader::new(Cursor::new(bytes)), &seeds)).await {
+            match tokio::time::timeout(watchdog(10), clone_pipeline(IoReader::new(Cursor::new(bytes)), &seeds)).await {
                 Ok(r) => r,
-                Err(_) => Err("TIMEOUT".to_string()),
+                Err(_) => { watchdog_hit(); Err("TIMEOUT".to_string()) }
             }
         })
     });
@@ -208,7 +208,7 @@ pub fn http_clone_log(bytes: &[u8], script: Vec<SItem>, retries: u32) -> (Result
         let rt = tokio::runtime::Builder::new_current_thread().enable_all().build().unwrap();
         rt.block_on(async move {
             let reader = HttpReader::from_url(url.parse().unwrap()).retries(retries).retry_delay(Duration::from_millis(0));
-            match tokio::time::timeout(Duration::from_secs(10), clone_pipeline(reader, &[])).await { Ok(r) => r, Err(_) => Err("TIMEOUT".to_string()) }
+            match tokio::time::timeout(watchdog(10), clone_pipeline(reader, &[])).await { Ok(r) => r, Err(_) => { watchdog_hit(); Err("TIMEOUT".to_string()) } }
         })
     });
     let log = srv.finish();
